@@ -733,7 +733,12 @@ func TestVerifBlockRecv(t *testing.T) {
 		vmu.Unlock()
 		if first {
 			replay["family"] = fam
-			res.Violate(map[string]interface{}{"part": "block-identity", "kind": kind, "path": path}, replay, "block identity (%s, header x = %s): %s", path, fam.Alt, text)
+			sig := map[string]interface{}{"part": "block-identity", "kind": kind, "path": path}
+			switch kind { // the classes that are consequences of the one missing check (DESIGN §6-e)
+			case "forged-forwarded", "forged-left-trace", "poisoned":
+				sig["cause"] = "hash-field-not-checked-against-header-digest"
+			}
+			res.Violate(sig, replay, "block identity (%s, header x = %s): %s", path, fam.Alt, text)
 		}
 	}
 
